@@ -138,6 +138,7 @@ def run(ctx):
         ctx.check(P + ':salt-generated-from-table', 'origin', 'generated salts are sized by HashAlgorithm::salt_len', bool(b.calls(r'HashAlgorithm::salt_len$')), function=b.path)
     # salt first + twins
     twins(ctx, P)
+    sig.salt_fed_at_every_hasher(ctx, P)
 
 
 FEED = [('new_hasher', r'HashAlgorithm::new_hasher$'), ('key-frame', r'signature::types::serialize_for_hashing$'), ('id-body', r'Serialize::to_writer$'),
